@@ -22,7 +22,7 @@ allfeat = sum(1 for m in metas.values() if any('all_features_suite' in l for l i
 missed_txt = ', '.join(f"{len(missed[r])} of {len(rounds[r])} in round {r}" for r in sorted(rounds))
 text = f"""## 10. Seeded changes: which checks catch which
 
-{n} changes to quick-xml were written by {n // 2} fresh sub-agents (two each) in eight rounds: round 1 — one agent
+{n} changes to quick-xml were written by {n // 2} fresh sub-agents (two each) in nine rounds: round 1 — one agent
 per property (seeds `-A`, `-B`); round 2 — a second agent for C02, C03, C05, C06, C09, C12, C13, C14, C15, C18, C19,
 C20 (seeds `-C`, `-D`), told only that "other engineers have already covered the most obvious mechanism" and to
 look at secondary code paths, rarely used entry points, async variants, configuration interactions and recovery
@@ -43,17 +43,23 @@ agent for the eight properties on the serde and writer side (C06, C07, C09, C13,
 `-L`), pointed at *lexical forms of values*, *serializer / deserializer objects configured or driven by hand*
 (builder methods, several values from one deserializer, a custom `EntityResolver`, `event_buffer_size`), *enum
 representations and colliding names*, *the same data in a different position*, and *output that the crate's own
-round trip still accepts*. Each agent saw only the text of one property and its own scratch git worktree under
+round trip still accepts*; round 9 (session 3) — one more agent for the twelve properties on the reader side (C01–C05,
+C08, C10–C12, C16–C18; seeds `-M`, `-N`), told what seven rounds incl. the scale workload had covered and pointed
+at *rarely used public API on the same data* (caller buffers that are not empty, `get_mut` / `into_inner` /
+`stream()` mixed with event reading, the `Event` and `BytesStart` conversions, `with_checks`, the generic
+`resolve`), *configuration changed at an unusual moment*, *exact alignment* of a construct with the end of the
+input or of a piece, *bytes outside ASCII and outside UTF-8*, and *what is reported next to the event*
+(positions, decoder, configuration). Each agent saw only the text of one property and its own scratch git worktree under
 `/tmp` — nothing from `/verif`. They were asked for realistic slips (off-by-one in a rare neighbourhood, missing
 branch, state not carried over, wrong order, two sites that disagree) that compile, keep the pinned
 default-feature suite green (and the all-features suite) and need something specific to manifest. I confirmed
 every one myself in its scratch worktree (`tools/confirm_seed.sh`: patch applies; default-feature suite 837/837
 with the patch; the demo fails with the patch; the demo passes without it; additionally the all-features suite
-for {allfeat} of the {n} — every seed of rounds 3 to 8 and every seed that touches serde, encoding or writer code;
+for {allfeat} of the {n} — every seed of rounds 3 to 9 and every seed that touches serde, encoding or writer code;
 three seeds, C15-F, C15-G and C15-I, fail three, two and one all-features tests and are kept because the pinned
 suite is the default-feature one; each `CONFIRM.txt` says which suites were run) and then ran the quick check(s)
 against it: rounds 1 to 6 by applying the patch to `/repo`, running `./check`, and reverting (`tools/mutest.sh`,
-`tools/run_seeded.sh`); rounds 7 and 8, and the re-runs after the repairs F13 and F14, in scratch lanes that do
+`tools/run_seeded.sh`); rounds 7 to 9, and the re-runs after the repairs F13 and F14, in scratch lanes that do
 not touch `/repo` (`tools/mutest_scratch.sh`, section 9). Each kept change lives in `/verif/seeded/<id>/`
 (`patch.diff`, `demo.rs`, the author's `NOTES.md`, my `CONFIRM.txt`, `meta.json`); `seeded/RESULTS.txt` holds,
 per (seed, check) pair, the raw first line of the most recent run. None of them is committed in `/repo`; the
@@ -84,7 +90,7 @@ named property's statement does not cover —
   (section 9), which is also how known finding F12 came to light.
 
 Misses at the first run, i.e. with the monitors as they stood when the seed arrived (or, for ten seeds of round 7
-and four of round 8, as predicted from the agent's summary and strengthened before the first run): {missed_txt}.
+four of round 8 and several of round 9, as predicted from the agent's summary and strengthened before the first run): {missed_txt}.
 Every miss led to the strengthening named in the last column of the table (each re-run afterwards). The agents'
 notes about the *unchanged* tree also led to five of the genuine defects of section 6 (F8, F9, F10, F11, F13) and
 to observations of section 6.1. In addition the harness's own 33 calibration mutants (`selftest/mutants/`,
